@@ -2,6 +2,8 @@ import WpModel.Drive.Loop
 import WpModel.Drive.Resources
 import WpModel.Drive.ResourcesBg
 import WpModel.Drive.ResourcesSvg
+import WpModel.Drive.ResourcesPaint
 
 def main : IO Unit :=
-  Wp.Drive.runDriver [Wp.Drive.Resources.handle, Wp.Drive.ResourcesBg.handle, Wp.Drive.ResourcesSvg.handle]
+  Wp.Drive.runDriver [Wp.Drive.Resources.handle, Wp.Drive.ResourcesBg.handle, Wp.Drive.ResourcesSvg.handle,
+    Wp.Drive.ResourcesPaint.handle]
